@@ -4,7 +4,8 @@
  2. the same log without its Recv events (= a removed hook at the collector's linearisation point) is not
  3. the same log with one Recv moved before the SendStart of its file is not
  4. a C01 event is accepted; the same event with one corrupted character of the observed key is listed as bad
-Exit 0 when all four behave as stated."""
+5-7. the generation stage: a Write before the error check, the same output written twice, exit 0 without a Write
+Exit 0 when all behave as stated."""
 import copy, os, sys
 sys.path.insert(0, "/verif")
 from vlib import cli, common
@@ -33,6 +34,20 @@ def main():
     moved.insert(si, ev)
     ok, matched, res = common.trace_validate("Trace_Pipeline", [header] + moved, None, 300)
     results.append(("3 Recv before its SendStart rejected", matched < len(moved) or bool(res.violation), f"{matched}/{len(moved)}"))
+    early = copy.deepcopy(events)
+    wi = next(i for i, e in enumerate(early) if e["ev"] in ("Write", "WriteSkip"))
+    qi = next(i for i, e in enumerate(early) if e["ev"] == "Reconciled")
+    ev = early.pop(wi)
+    early.insert(qi, ev)
+    ok, matched, res = common.trace_validate("Trace_Pipeline", [header] + early, None, 300)
+    results.append(("5 output written before the error check rejected", matched < len(early) or bool(res.violation), f"{matched}/{len(early)}"))
+    twice = copy.deepcopy(events)
+    twice.insert(wi + 1, copy.deepcopy(twice[wi]))
+    ok, matched, res = common.trace_validate("Trace_Pipeline", [header] + twice, None, 300)
+    results.append(("6 the same output written twice rejected", matched < len(twice) or bool(res.violation), f"{matched}/{len(twice)}"))
+    nowrite = [e for e in events if e["ev"] not in ("Write", "WriteSkip")]
+    ok, matched, res = common.trace_validate("Trace_Pipeline", [header] + nowrite, None, 300)
+    results.append(("7 exit 0 without the output having been written rejected", matched < len(nowrite) or bool(res.violation), f"{matched}/{len(nowrite)} {res.violation or ''}"))
     good = {"lang": "typescript", "ident": list("user_name"), "rename": [], "rule": "camelCase", "key": list("userName")}
     badev = dict(good, key=list("username"))
     ok, matched, res = common.trace_validate("Trace_C01", [good, badev, good])
